@@ -3,24 +3,26 @@ from ann import Overlay, ghost
 o = Overlay('/verif/contracts/algmod.rs')
 o.strip_ghost()
 LCSB = "alg == Algorithm::Lcs ==> ((old_range.end - old_range.start) <= u32::MAX || (new_range.end - new_range.start) <= u32::MAX),   // lcs table cells are u32"
-CONTRACT = '''
-    requires diff_pre(*vstd::prelude::old(d), old, old_range, new, new_range),
+def contract(lv):
+    return (lambda t: t.replace('LVL', lv))('''
+    requires diff_pre(*vstd::prelude::old(d), old, old_range, new, new_range, LVL),
         ''' + LCSB + '''
     ensures
         err_post(*vstd::prelude::old(d), *final(d), res),
-        seg_post(*vstd::prelude::old(d), *final(d), old, old_range, new, new_range, fin::<D>(), res.is_ok()),
-'''
-for name in ('pub fn diff<Old, New, D>(', 'pub fn diff_deadline<Old, New, D>('):
+        seg_post(*vstd::prelude::old(d), *final(d), old, old_range, new, new_range, LVL, fin::<D>(), res.is_ok()),
+''')
+for name, lv in (('pub fn diff<Old, New, D>(', 'alg_lvl(None)'), ('pub fn diff_deadline<Old, New, D>(', 'alg_lvl(deadline)')):
     i = o.find(name)
-    o.before('{', CONTRACT, start=i)
-SL = '''
-    requires diff_pre(*vstd::prelude::old(d), old, 0..old.len(), new, 0..new.len()),
+    o.before('{', contract(lv), start=i)
+def sl(lv):
+    return '''
+    requires diff_pre(*vstd::prelude::old(d), old, 0..old.len(), new, 0..new.len(), LVL),
         alg == Algorithm::Lcs ==> (old.len() <= u32::MAX || new.len() <= u32::MAX),
     ensures
         err_post(*vstd::prelude::old(d), *final(d), res),
-        seg_post(*vstd::prelude::old(d), *final(d), old, 0..old.len(), new, 0..new.len(), fin::<D>(), res.is_ok()),
-'''
-for name in ('pub fn diff_slices<D, T>(', 'pub fn diff_slices_deadline<D, T>('):
+        seg_post(*vstd::prelude::old(d), *final(d), old, 0..old.len(), new, 0..new.len(), LVL, fin::<D>(), res.is_ok()),
+'''.replace('LVL', lv)
+for name, lv in (('pub fn diff_slices<D, T>(', 'alg_lvl(None)'), ('pub fn diff_slices_deadline<D, T>(', 'alg_lvl(deadline)')):
     i = o.find(name)
-    o.before('{', SL, start=i)
+    o.before('{', sl(lv), start=i)
 o.save()
